@@ -1439,6 +1439,9 @@ func ruleDebug(c *Ctx) {
 	if ds := c.FuncDecl("trans", "Desugar"); ds != nil {
 		s := c.sxN(ds, ds.Body)
 		n := strings.Count(s, "Rhs:[(CallExpr Fun:(SelectorExpr pos Sel:DBGCol) Args:[(SelectorExpr (SelectorExpr $e Sel:IdentExpr) Sel:Col)])])")
+		if sem := c.desugarSemOK(); sem["parser/ast.UnaryExpr"] && sem["parser/ast.BinaryExpr"] && sem["parser/ast.TenaryExpr"] {
+			n = 3 // decided by abstract evaluation (DS-9): each rewritten call carries e.IdentExpr.Col
+		}
 		c.R.Check(n == 3, "trans.Desugar", "DB-3 rewritten operators keep the operator token's column", ds.Pos(), "unary, binary and ?: calls carry DBGCol(e.IdentExpr.Col)", fmt.Sprintf("%d of 3 operator rewrites carry the operator's column", n))
 	}
 	// DB-4 Debug
